@@ -1,6 +1,7 @@
 import Driver.FlowFam
 import Driver.BatchFam
 import Driver.BindFam
+import Driver.PoolFam
 /-!
 # `flytdriver`: one JSON line in (`{"fam":…,"sc":…,"obs":…}`), one JSON verdict line out.
 The scenario is run through the Lean model; the property predicates (`Spec.*`) are evaluated on
@@ -18,6 +19,7 @@ def handleLine (line : String) : Json :=
       | "flow" => Driver.FlowFam.handle sc obs
       | "gbatch" => Driver.BatchFam.handle sc obs
       | "bind" => Driver.BindFam.handle sc obs
+      | "pool" => Driver.PoolFam.handle sc obs
       | f => Json.mkObj [("badop", Json.str s!"unknown family {f}")]
     | _, _, _ => Json.mkObj [("badop", Json.str "missing fam/sc/obs")]
 
